@@ -235,7 +235,7 @@ def tstr(t):
 
 
 class State:
-    __slots__ = ("env", "attrs", "facts", "ret", "exc", "log", "alog", "events", "cterms")
+    __slots__ = ("env", "attrs", "facts", "ret", "exc", "log", "alog", "events", "cterms", "done")
 
     def __init__(self):
         self.env = {}
@@ -246,6 +246,7 @@ class State:
         self.log = []
         self.alog = []
         self.cterms = {}  # id(call node) -> its term as evaluated when the call happened (before later rebindings)
+        self.done = False  # the path is finished: recorded nodes evaluate to what they were when their event happened
         self.events = []
 
     def fork(self):
@@ -258,6 +259,7 @@ class State:
         s.log = list(self.log)
         s.alog = list(self.alog)
         s.cterms = dict(self.cterms)
+        s.done = self.done
         s.events = list(self.events)
         return s
 
@@ -284,6 +286,12 @@ class SymEngine:
     def ev(self, e, f, st):
         if e is None:
             return C(None)
+        if st.done:
+            # a rule looks at an event's expression after the path has ended: it means the value it had then,
+            # not under the bindings at the end of the path (a loop form rebinds `node`, `keypath`, ...)
+            t = st.cterms.get(id(e))
+            if t is not None:
+                return t
         m = getattr(self, "_e_" + type(e).__name__, None)
         if m is None:
             return unk(type(e).__name__)
@@ -1061,9 +1069,39 @@ class SymEngine:
         elif isinstance(tgt, ast.Starred):
             self._bind_target(tgt.value, unk("star"), f, st)
 
+    @staticmethod
+    def _event_exprs(ev):
+        """expressions of an event that rules evaluate afterwards"""
+        n = ev.node
+        k = ev.k
+        out = []
+        if k == "call" and isinstance(n, ast.Call):
+            out += [a.value if isinstance(a, ast.Starred) else a for a in n.args] + [kw.value for kw in n.keywords]
+            if isinstance(n.func, ast.Attribute):
+                out.append(n.func.value)
+        elif k in ("yield", "yieldfrom") and isinstance(n, (ast.Yield, ast.YieldFrom)) and n.value is not None:
+            out.append(n.value)
+        elif k == "src" and isinstance(n, ast.Subscript):
+            out += [n.value] + ([n.slice] if not isinstance(n.slice, ast.Slice) else [])
+        elif k == "stmt" and isinstance(n, (ast.Assign, ast.AugAssign, ast.AnnAssign)) and n.value is not None:
+            out.append(n.value)
+            for t in (n.targets if isinstance(n, ast.Assign) else [n.target]):
+                if isinstance(t, ast.Subscript):
+                    out += [t.value] + ([t.slice] if not isinstance(t.slice, ast.Slice) else [])
+        elif k == "raise" and isinstance(n, ast.Raise) and isinstance(n.exc, ast.Call):
+            out += list(n.exc.args)
+        return out
+
     def step(self, ev, f, st):
         """Apply one event; -> False when the path became infeasible."""
         k = ev.k
+        if ev.a in ("ok", None) or k in ("stmt", "yield", "yieldfrom", "raise"):
+            for x in self._event_exprs(ev):
+                if id(x) not in st.cterms and not isinstance(x, ast.Constant):
+                    try:
+                        st.cterms[id(x)] = self.ev(_as_load(x) if isinstance(getattr(x, "ctx", None), ast.Store) else x, f, st)
+                    except Exception:
+                        pass
         if k == "assume":
             t = self.ev(ev.node, f, st)
             # conditions of `assert` statements refine the facts but are kept apart from the guards: a rule that
@@ -1165,6 +1203,8 @@ class SymEngine:
             states = nxt
             if not states:
                 break
+        for st in states:
+            st.done = True
         return states
 
     # ------------------------------------------------------------------
